@@ -52,6 +52,9 @@ fn alpha(cfg: &Cfg) -> Vec<Op> {
     v.push(c(sgr1(41)));
     v.push(c(sgr1(1)));
     v.push(c(sgr1(0)));
+    // "the cursor and all modes stay exactly as they were": every mode away from its
+    // default (hidden state and cursor visibility are compared after every step)
+    v.push(c(Seq(vec![DecRst(vec![25]), DecSet(vec![1]), Sm(vec![20]), Sm(vec![4])])));
     v
 }
 
@@ -118,12 +121,27 @@ fn medium_part(tier: Tier) -> Part<'static, LockStep> {
     }
 }
 
+static SYS_SWEEP: LockStep = LockStep { property: "C07", probes: false, seed: Some(&super::sweep::fill) };
+
+fn alpha_sweep(cfg: &Cfg) -> Vec<Op> {
+    // every cell as the cursor position: the extents are relative to it
+    let mut v = super::sweep::placements(cfg, false);
+    for r in 1..=cfg.rows as u32 {
+        for cc in 1..=cfg.cols as u32 {
+            v.push(c(Cup(Some(r), Some(cc))));
+        }
+    }
+    v.extend(super::sweep::edit_funcs(cfg));
+    v
+}
+
 pub fn run(ctx: &Ctx) -> Report {
     let mut rep = Report::new();
     let (a, b) = parts!(ctx.tier, &SYS, &SYS_BLANK);
     run_part(ctx, &mut rep, &a);
     run_part(ctx, &mut rep, &b);
     run_part(ctx, &mut rep, &medium_part(ctx.tier));
+    run_part(ctx, &mut rep, &super::sweep::sweep_part("edit-large-screen-parameter-sweep", &SYS_SWEEP, &alpha_sweep, ctx.tier));
     rep.rule = "lock-step BFS of (real Vt, reference terminal) from a screen completely filled with distinct letters (all rows soft-wrapped) and from a blank screen: ED/EL x selectors {default,0,1,2}, ECH/ICH/DCH x counts {default,0,1,2,w-1,w,w+1,65535}, DECALN, with the cursor on every cell and in the wrap-pending column, three pens; every cell of lines(), the cursor (exact, incl. the pending column) and the specified wrap marks are compared after every transition".into();
     rep.assumptions = vec!["erase extents are computed from the reported column (R2); marks after EL 1 / ED 1 on the cursor row, ICH and DECALN are adopted".into()];
     rep
@@ -134,6 +152,7 @@ pub fn replay(ctx: &Ctx, v: &Value) -> bool {
     let (a, b) = parts!(tier, &SYS, &SYS_BLANK);
     match v["part"].as_str().unwrap_or("") {
         "edit-lockstep-medium-screen" => replay_part(ctx, &medium_part(tier), v),
+        "edit-large-screen-parameter-sweep" => replay_part(ctx, &super::sweep::sweep_part("edit-large-screen-parameter-sweep", &SYS_SWEEP, &alpha_sweep, tier), v),
         "edit-lockstep-filled-screen" => replay_part(ctx, &a, v),
         _ => replay_part(ctx, &b, v),
     }
